@@ -73,7 +73,7 @@ class ApprovalToSimpleVotes:
         """Convert approval votes to simple votes."""
         agg_votes = collections.defaultdict(int)
         for bulk, n_votes in votes.items():
-            if self.split:
+            if self.split and bulk:
                 n_votes = Fraction(n_votes, len(bulk))
             for cand in bulk:
                 agg_votes[cand] += n_votes
